@@ -377,7 +377,34 @@ OPTION_CLASSES = ("IndexedOptionArray32", "IndexedOptionArray64", "ByteMaskedArr
 INDEXED_CLASSES = ("IndexedArray32", "IndexedArrayU32", "IndexedArray64")
 
 
-def validity_error(d):
+def validity_error(d, _inside=None):
+    """See _validity; additionally applies the parameter rules for "char"/"byte"/"string"/"bytestring"/
+    "categorical" markers (malformed string/categorical parameters)."""
+    arr = _param(d, "__array__")
+    c = d["class"]
+    if arr in ("char", "byte"):
+        want = "string" if arr == "char" else "bytestring"
+        if _inside != want:
+            return "%s outside %s" % (arr, want)
+    if arr in ("string", "bytestring") and not (c.startswith("List") or c == "RegularArray"):
+        return "%s on a non-list node" % arr
+    if arr == "categorical":
+        if not c.startswith("Indexed"):
+            return "categorical on a non-indexed node"
+        try:
+            vals = items(d["content"])
+        except Invalid:
+            vals = None
+        if vals is not None:
+            seen = []
+            for v in vals:
+                if any(same(v, w) for w in seen):
+                    return "categorical content not unique"
+                seen.append(v)
+    return _validity(d)
+
+
+def _validity(d):
     """None if the layout obeys every documented structural rule, else a short reason (first found,
     top-down).  Rule families (C11): offsets decreasing or beyond content; index or tag out of range;
     mask or content shorter than the declared length; directly nested option-in-option /
@@ -409,7 +436,7 @@ def validity_error(d):
         e = _string_params_error(d)
         if e:
             return e
-        return validity_error(d["content"])
+        return validity_error(d["content"], _param(d, "__array__"))
     if c.startswith("ListArray"):
         st, sp = d["starts"], d["stops"]
         if len(sp) < len(st):
@@ -427,7 +454,7 @@ def validity_error(d):
         e = _string_params_error(d)
         if e:
             return e
-        return validity_error(d["content"])
+        return validity_error(d["content"], _param(d, "__array__"))
     if c == "RegularArray":
         if d["size"] < 0:
             return "size < 0"
@@ -436,7 +463,7 @@ def validity_error(d):
         e = _string_params_error(d)
         if e:
             return e
-        return validity_error(d["content"])
+        return validity_error(d["content"], _param(d, "__array__"))
     if c in INDEXED_CLASSES or c.startswith("IndexedOption"):
         clen = length(d["content"])
         isopt = c.startswith("IndexedOption")
